@@ -82,6 +82,18 @@ CHECKS = {
         note=COMMON_NOTE + "bash 5 (LC_ALL=C, HOME=/nonexistent-fcv so that tilde expansion is visible) is the oracle. "
              "The bounded part is exhaustive; everything longer is sampled.",
         design="4/C17"),
+    "C10": dict(
+        category="exploration",
+        technique="runtime monitoring at library level: bounded-exhaustive write/read round trips of reports + truncation sweep; CLI dry runs decoded by bash",
+        text="Through fclones::report (and the verif_api hook for Arg) every string of length <=3 (thorough: <=4) over a "
+             "16-symbol alphabet of troublesome bytes and random strings up to 4 KiB is placed as absolute/relative path in "
+             "first, middle and last position of groups, as base directory and as command argument; text and JSON reports "
+             "are written and read back with open_report/read_header/read_groups and compared field by field (paths as "
+             "bytes, timestamp at ms). Every byte-prefix of small multi-group reports must be rejected or yield only "
+             "unaltered leading groups. At CLI level real `group` reports over hostile names (full and cut at random points) "
+             "are piped into `remove --dry-run` and the paths bash decodes from the script must be listed in the report.",
+        note=COMMON_NOTE + "Paths are compared after fclones' own Path normalisation. The bounded part is exhaustive.",
+        design="4/C10"),
 }
 
 NOT_YET = {}
